@@ -56,7 +56,22 @@ func runC14Sign(c *Ctx) {
 				var err error
 				for round := 0; round < 12; round++ {
 					m.Missing = map[string]bool{}
-					res, err = k4run(c.P, f, m, nil)
+					// the ring list is modelled as a slice of opaque rings (shell first),
+					// so accessor calls and direct reads of p.rings interpret alike
+					it := &k4interp{p: c.P, m: m, mem: map[string]k4val{}, inline: func(g *ssa.Function) bool {
+						switch FuncName(g) {
+						case "geom.(Polygon).ExteriorRing", "geom.(Polygon).InteriorRingN", "geom.(Polygon).NumInteriorRings",
+							"geom.(Polygon).NumRings", "geom.(Polygon).IsEmpty", "geom.maxInt":
+							return true
+						}
+						return false
+					}}
+					nr := int(nHoles) + 1
+					it.mem["$0.rings"] = k4val{kind: 8, s: "RING", ln: nr, cp: nr}
+					for i := 0; i < nr; i++ {
+						it.mem[fmt.Sprintf("RING[%d]", i)] = k4val{kind: 3, s: fmt.Sprintf("RING[%d]", i)}
+					}
+					res, err = it.call(f, []k4val{{kind: 3, v: f.Params[0], s: "$0"}, {kind: 3, v: f.Params[1], s: "$1"}}, nil)
 					if err == nil || len(m.Missing) == 0 {
 						break
 					}
@@ -67,11 +82,11 @@ func runC14Sign(c *Ctx) {
 							m.Bool[key] = signed
 						case strings.HasPrefix(k, "num ") && strings.Contains(key, "NumInteriorRings"):
 							m.Num[key] = nHoles
-						case strings.HasPrefix(k, "num ") && strings.Contains(key, "signedAreaOfLinearRing") && strings.Contains(key, "ExteriorRing"):
+						case strings.HasPrefix(k, "num ") && strings.Contains(key, "signedAreaOfLinearRing") && (strings.Contains(key, "ExteriorRing") || strings.Contains(key, "(RING[0]")):
 							m.Num[key] = vals[0]
-						case strings.HasPrefix(k, "num ") && strings.Contains(key, "signedAreaOfLinearRing") && strings.Contains(key, "InteriorRingN($0,0)"):
+						case strings.HasPrefix(k, "num ") && strings.Contains(key, "signedAreaOfLinearRing") && (strings.Contains(key, "InteriorRingN($0,0)") || strings.Contains(key, "(RING[1]")):
 							m.Num[key] = vals[1]
-						case strings.HasPrefix(k, "num ") && strings.Contains(key, "signedAreaOfLinearRing") && strings.Contains(key, "InteriorRingN($0,1)"):
+						case strings.HasPrefix(k, "num ") && strings.Contains(key, "signedAreaOfLinearRing") && (strings.Contains(key, "InteriorRingN($0,1)") || strings.Contains(key, "(RING[2]")):
 							m.Num[key] = vals[2]
 						default:
 							undec = "term outside the rule's vocabulary: " + k
